@@ -1,6 +1,7 @@
 package c11
 
 import (
+	"sync/atomic"
 	"encoding/json"
 	"fmt"
 	"io"
@@ -207,6 +208,25 @@ func run(tapeJSON json.RawMessage, res *core.Result) {
 			}
 		}))
 	}
+	var downAt, upAt atomic.Int64
+	downAt.Store(-1)
+	upAt.Store(-1)
+	if o := tp.Outage; o != nil && o.AtNs >= 0 && o.ForNs > 0 && o.ForNs < int64(48*time.Hour) {
+		ts = append(ts, simrt.Spawn(40, "network", simrt.Sched{Mode: "min"}, func() {
+			simrt.SleepNs(o.AtNs, "until the outage")
+			b := world.Behaviour{Kind: "refuse"}
+			if o.Kind == "close" {
+				b = world.Behaviour{Kind: "close", Arg: 0}
+			}
+			net.Down.Store(&b)
+			downAt.Store(simrt.NowNs())
+			simrt.Logf("network outage begins (%s)", o.Kind)
+			simrt.SleepNs(o.ForNs, "outage")
+			net.Down.Store(nil)
+			upAt.Store(simrt.NowNs())
+			simrt.Logf("network outage ends")
+		}))
+	}
 	if late := simrt.WaitTimeout(60*24*time.Hour, ts...); len(late) > 0 {
 		var names []string
 		for _, t := range late {
@@ -264,6 +284,17 @@ func run(tapeJSON json.RawMessage, res *core.Result) {
 		if r.Panic != "" {
 			engine.Violate(res, "panic|"+strings.SplitN(r.Panic, ":", 2)[0], r)
 			continue
+		}
+		// an operation that overlaps the outage may fail (what it returns is judged as always); one
+		// invoked after the outage ended is owed everything again
+		if d := downAt.Load(); d >= 0 && r.Return >= d && (upAt.Load() < 0 || r.Invoke <= upAt.Load()) {
+			res.Probes["operation-during-outage"]++
+			if !r.OK {
+				res.Stats["failed_during_outage"]++
+				afterDestroy = true // owed nothing
+			}
+		} else if u := upAt.Load(); u >= 0 && r.Invoke > u {
+			res.Probes["operation-after-outage"]++
 		}
 		switch r.Op {
 		case "tgs", "cached":
